@@ -128,9 +128,12 @@ def main_seeds(args):
             continue
         meta = json.load(open(mp))
         metas[sid] = meta
-        jobs.append((sid, 'patch', meta['property']))
+        if os.path.exists(os.path.join(base, sid, 'patch.diff')):
+            jobs.append((sid, 'patch', meta['property']))
         if os.path.exists(os.path.join(base, sid, 'benign.diff')):
-            jobs.append((sid, 'benign', meta['property']))
+            # behaviour-preserving refactorings are replayed against their own property's check and any others named in `also`
+            for prop in [meta['property']] + list(meta.get('also', [])):
+                jobs.append((sid, 'benign', prop))
     t0 = time.time()
     summary = {}
     out = []
